@@ -25,6 +25,11 @@ func checkC18(c *Ctx) {
 		emitFacts(c, res, "R3.stream", "app.stream", "app.short")
 	}
 	c18Keys(c)
+	// key derivations are functions of their arguments only: no package-level state is written on the way
+	// (a memo table keyed by part of the arguments would make the result depend on earlier calls)
+	for _, fn := range []string{"GetMcRootKeyForGenAppKey", "GetMcRootKeyForAppKey", "GetMcKEKey", "GetMcAppSKey", "GetMcNetSKey"} {
+		ruleStateless(c, "R6.keys-stateless", c.Prog.SSAFunc("applayer/multicastsetup", fn))
+	}
 	c18EncoderTotalHook(c)
 }
 
